@@ -43,6 +43,8 @@ def run(chk):
     chk.rule("SORTED.invalidate", "the sweep pops local minima from a list it assumes sorted: every public method that may modify minima_list_ writes "
              "minima_list_sorted_ on every path and the flag becomes true only after a sort (out-of-order minima leave bounds without a partner edge, "
              "which are then extended past their top vertex: crossing edges and vertices outside the input bounds in the solution)")
+    chk.rule("FLAG.sticky", "has_open_paths_ is only switched on where paths are added and off in Clear(): with the flag off while open paths are loaded, open "
+             "edges alter winding counts and are joined into closed rings (orientation no longer matches nesting; Union of the solution is not idempotent)")
     chk.rule("REMOVAL.restart", "CleanCollinear restarts its lap (startOp = op2) on every path after a removal")
     chk.rule("SIBLING.64-D", "BuildPathD / BuildPathsD / BuildTreeD are their 64-bit siblings modulo renames and de-scaling")
     for cfg in cfgs:
@@ -57,6 +59,7 @@ def run(chk):
         e9.rule_int64_product(db, chk, cfg)
         e10.rule_removal_restart(db, chk, cfg)
         e10.rule_open_flag(db, chk, cfg)       # an open record built as a closed ring puts a raw polyline into the closed solution
+        e10.rule_sticky_open_flag(db, chk, cfg)   # with the flag off, open edges go through the closed-path logic: negatively oriented top-level rings
         from ..engines import e8_scale as _e8
         _e8.rule_clipperd(db, chk, cfg)        # "every solution vertex lies inside the bounding box of the inputs": ClipperD's outputs are de-scaled
         from ..engines import e2_state as _e2, e10_pipeline as _e10
